@@ -82,7 +82,8 @@ CLAIMED["C04"] = dict(
          ">= thr acts, for every threshold and grid, at the first multiple of the rule step that is >= thr (thr > 0); and of two AT TIME controls on one "
          "link at the same instant the higher priority wins in either registration order (through both stable sorts and the loop); and a WINDOW -- "
          "'on' AT TIME ts, 'off' AT TIME te on one target -- is on at a solved step exactly when ts <= time < te, with steps solved at exactly ts and te, "
-         "for every grid and also when both instants lie inside one hydraulic step (C04/Window.v: invariant over the whole run). The model also "
+         "for every grid and also when both instants lie inside one hydraulic step, and such a run exists and reaches the duration (C04/Window.v: invariant "
+         "over the whole run + progress measure = total correctness). The model also "
          "proves (by evaluation) what the CURRENT code does wrong: daily clock-time controls act at 2x the threshold, 'before' clock "
          "conditions are never true, rules are evaluated at t=0 -- recorded as known findings. Tie decided inside coqc: the (time, status) "
          "trace of the real simulator equals Sched.run for every generated configuration of controls and rules (exact).",
@@ -230,7 +231,7 @@ CLAIMED["C08"] = dict(
     ref="DESIGN.md section 5 C08",
     note="Trusted: Coq kernel; stdlib real axioms + classic (Coquelicot); coq-interval; translator chains.py; row dumper; tracing wrapper. "
          "Modelled not verified: binary64 rounding (1e-9 relative). The whole-run window theorem is closed for a leak whose status no other control touches (the two controls add_leak "
-         "registers); it speaks about the runs that complete (steps ... = Some), their existence is witnessed by evaluation and by the timeline tie.",
+         "registers); C08_leak_window_total also proves that the run exists and reaches the duration (D a positive multiple of the hydraulic step).",
     technique="Coq proof over a translator-regenerated model (field, Coquelicot) + interval-certified differential on real rows and reported leak demands")
 
 CLAIMED["C02"] = dict(
